@@ -87,7 +87,7 @@ def generate(tier, seed):
             name = str(rng.choice([m for m in PIPE_MODELS if dim <= common.max_valid_dim(m)]))
             angles, anis = _draw_geom(rng, dim, hostile=False)
             cases.append(("pipe_krige", {"dim": dim, "name": name, "angles": angles, "anis": anis,
-                                         "variant": str(rng.choice(["Simple", "Ordinary", "ExtDrift", "Universal", "Universal"])),
+                                         "variant": str(rng.choice(["Simple", "Ordinary", "ExtDrift", "Universal", "Universal", "Fitted"])),
                                          "seed": int(rng.integers(1, 1 << 20)), "pseed": int(rng.integers(1 << 30)),
                                          "nugget": float(rng.choice([0.0, 0.2])),
                                          "len_scale": round(float(rng.uniform(0.8, 4)), 3), "cond": bool(rep % 2)}))
@@ -408,6 +408,42 @@ def check_pipe_krige(ctx, c):
         call = dict(ext_drift=rng.normal(size=x.shape[1]))
     if c["variant"] == "Simple":
         kw = dict(mean=0.4)
+    if c["variant"] == "Fitted":
+        # the anisotropy is *fitted* at construction (directional variogram fit): the pipeline has to use the fitted geometry throughout
+        if dim == 1 or all(abs(e - 1) < 0.2 for e in c["anis"]):
+            ctx.discard("no directional fit in this configuration")
+            return
+        n = 60
+        cp = rng.uniform(-6, 6, size=(dim, n))
+        with warnings.catch_warnings():
+            warnings.simplefilter("ignore")
+            truth = gs.Exponential(dim=dim, var=1.0, len_scale=2.0, anis=[float(v) for v in np.exp(rng.uniform(-1, 1, size=dim - 1))], angles=c["angles"])
+            cv = np.asarray(gs.SRF(truth, seed=c["seed"], mode_no=128)(cp))
+            start = gs.Exponential(dim=dim, var=0.8, len_scale=1.5, anis=[min(max(v, 0.3), 3.0) for v in c["anis"]], angles=c["angles"])
+            try:
+                ka = gs.krige.Ordinary(start, cp, cv, fit_variogram=True)
+            except (RuntimeError, ValueError):
+                ctx.discard("variogram fit failed")
+                return
+            fm = ka.model
+            ang, ani = [float(v) for v in fm.angles], [float(v) for v in fm.anis]
+            b = gs.Exponential(dim=dim, var=float(fm.var), len_scale=float(fm.len_scale), nugget=float(fm.nugget))
+            x = np.concatenate([rng.uniform(-7, 7, size=(dim, 15)), cp[:, :2]], axis=1)
+            cpi, xi = orot.isometrize(dim, ang, ani, cp), orot.isometrize(dim, ang, ani, x)
+            kb = gs.krige.Ordinary(b, cpi, cv)
+            fa, va = ka(x)
+            fb, vb = kb(xi)
+        ctx.event("pipeline_fields_compared")
+        ctx.cell(f"krige/Fitted/dim{dim}")
+        kc_ = np.linalg.cond(b.covariance(np.linalg.norm(cpi[:, :, None] - cpi[:, None, :], axis=0)) + np.eye(n) * b.nugget)
+        if kc_ > 1e9:
+            ctx.discard("ill-conditioned kriging system")
+            return
+        err = max(common.maxabs(fa - fb) / max(1.0, common.maxabs(fb)), common.maxabs(va - vb) / max(1.0, float(b.sill)))
+        if not err <= 1e-13 * kc_ * 100 + 1e-10:
+            ctx.fail({"what": "krige(fitted aniso,x)!=krige(iso,T_fitted x)", "variant": "Fitted", "dim": dim},
+                     f"max rel diff {err:.3e}; fitted anis {ani}, angles {ang}")
+        return
     cls = getattr(gs.krige, c["variant"])
     if c["variant"] == "Universal":
         # drift functions are functions of the user's coordinates: f(x) for the anisotropic model, f(T^-1 x') for its isotropic twin
